@@ -98,11 +98,16 @@ def parseBlocks (cfg : Cfg) (extra : List (Text × Text)) (w : World) (changes :
     List (Text × Except PErr (Option FileCtx)) :=
   (scope w changes scan).map (fun (p, cs, all) => (p, parseFile cfg extra p (w.read p) (w.nodes p) cs all))
 
+/-- the files that failed, with their errors -/
+def errorsOf (rs : List (Text × Except PErr (Option FileCtx))) : List (Text × PErr) :=
+  rs.filterMap (fun r => match r.2 with | .error e => some (r.1, e) | .ok _ => none)
+
+/-- the files that contribute blocks (files without a grammar or without blocks are dropped) -/
+def okFiles (rs : List (Text × Except PErr (Option FileCtx))) : List FileCtx :=
+  rs.filterMap (fun r => match r.2 with | .ok (some f) => if f.blocks.isEmpty then none else some f | _ => none)
+
 def contextOf (rs : List (Text × Except PErr (Option FileCtx))) : Except (List (Text × PErr)) (List FileCtx) :=
-  let errs := rs.filterMap (fun r => match r.2 with | .error e => some (r.1, e) | .ok _ => none)
-  if errs.isEmpty then
-    .ok (rs.filterMap (fun r => match r.2 with | .ok (some f) => if f.blocks.isEmpty then none else some f | _ => none))
-  else .error errs
+  if (errorsOf rs).isEmpty then .ok (okFiles rs) else .error (errorsOf rs)
 
 /-! ### validators over a context -/
 
